@@ -197,11 +197,14 @@ theorem C03_guard_full_false :
   have := h e0 r0 [bigUsage L] h1
   omega
 
-/-- non-vacuity: a record with one usage entry of two containers meets the hypotheses of `C03_payload` -/
-example : RecInt64 ⟨[110, 102], [38, 9, 48, 4, 68, 5, 43, 0, 0], 1⟩
+/-- non-vacuity: a record with a PDU session, an IPv4 address and one usage entry of two containers meets the
+    hypotheses of `C03_payload` -/
+example : RecInt64
+    ({ nfId := [110, 102], openTime := [38, 9, 48, 4, 68, 5, 43, 0, 0], functionality := 1,
+       v4 := some [49, 46, 50], pdu := some ⟨7, 1, 1, [1, 2, 3], [105]⟩ } : RecEnv)
     { sid := some [115], subData := [50], cid := 7, nf := some [97], lsn := 1, rsn := none, cause := 0,
       usage := [{ rg := 1, upf := [117], cs := [⟨1, 5, 2, 3, 0, 1⟩, ⟨2, 70000, 1, 69999, 0, 2⟩] }] } := by
-  refine ⟨⟨by decide, by decide⟩, ⟨by decide, by decide⟩, ⟨by decide, by decide⟩, ⟨by decide, by decide⟩, ?_, ?_⟩
+  refine ⟨⟨by decide, by decide⟩, ⟨by decide, by decide⟩, ⟨by decide, by decide⟩, ⟨by decide, by decide⟩, ?_, ?_, ?_⟩
   · intro n h; cases h
   · intro u hu
     simp only [List.mem_singleton] at hu
@@ -211,5 +214,9 @@ example : RecInt64 ⟨[110, 102], [38, 9, 48, 4, 68, 5, 43, 0, 0], 1⟩
     simp only [List.mem_cons, List.not_mem_nil, or_false] at hc
     rcases hc with rfl | rfl <;>
       exact ⟨⟨by decide, by decide⟩, ⟨by decide, by decide⟩, ⟨by decide, by decide⟩, ⟨by decide, by decide⟩, ⟨by decide, by decide⟩⟩
+  · intro d hd
+    simp only [Option.some.injEq] at hd
+    subst hd
+    exact ⟨⟨by decide, by decide⟩, ⟨by decide, by decide⟩, ⟨by decide, by decide⟩⟩
 
 end Chf.Props.C03
